@@ -2,3 +2,5 @@ import PtaSpec.Hier
 import PtaSpec.RuleSem
 import PtaSpec.BuilderSpec
 import PtaSpec.LayerSem
+import PtaSpec.LabelSem
+import PtaSpec.ScanSem
